@@ -408,18 +408,22 @@ func ConvertJsonValueToTv(d any, slt *sdcpb.SchemaLeafType) (*sdcpb.TypedValue, 
 			Value: &sdcpb.TypedValue_BoolVal{BoolVal: b},
 		}, nil
 	case "decimal64":
-		arr := strings.SplitN(d.(string), ".", 2)
-		digits, err := strconv.ParseInt(arr[0], 10, 64)
+		// decimal64 is a string in JSON_IETF, plain JSON documents also carry it as a number
+		var v string
+		switch d := d.(type) {
+		case string:
+			v = d
+		case float64:
+			v = strconv.FormatFloat(d, 'f', -1, 64)
+		default:
+			return nil, fmt.Errorf("error converting %v to decimal64", d)
+		}
+		d64, err := ParseDecimal64(v)
 		if err != nil {
 			return nil, err
 		}
-		precision64, err := strconv.ParseUint(arr[1], 10, 32)
-		if err != nil {
-			return nil, err
-		}
-		precision := uint32(precision64)
 		return &sdcpb.TypedValue{
-			Value: &sdcpb.TypedValue_DecimalVal{DecimalVal: &sdcpb.Decimal64{Digits: digits, Precision: precision}},
+			Value: &sdcpb.TypedValue_DecimalVal{DecimalVal: d64},
 		}, nil
 	case "union":
 		for _, ut := range slt.GetUnionTypes() {
